@@ -261,6 +261,7 @@ func checkC02(p *Program, r *Report) {
 		r.Note("C02.canon: no normalising or Unicode case-mapping call is reachable from the decoders")
 	}
 	base58ByteLookup(p, r, "C02.canon")
+	asciiFoldExact(p, r, "C02.canon", roots)
 }
 
 // regroupRoles recognises the bit-regrouping function: an outer loop with a
